@@ -14,7 +14,7 @@ PROP = "C14"
 LEAN_MODULE = "Ztr.Props.C14"
 THEOREMS = ["Ztr.Discovery.C14_once", "Ztr.Discovery.C14_enum_independent_files",
             "Ztr.Discovery.C14_enum_independent_dirs", "Ztr.Discovery.C14_exact", "Ztr.Discovery.C14_winner_spec",
-            "Ztr.Discovery.C14_import_gate", "Ztr.Discovery.C14_module_name_has_package",
+            "Ztr.Discovery.C14_import_gate", "Ztr.Discovery.C14_import_once", "Ztr.Discovery.C14_module_name_has_package",
             "Ztr.Discovery.C14_ignore_folders"]
 RULE = ("random directory trees (depth <= 4): identifier / non-identifier / ignored (.git, .svn, CVS, node_modules, "
         "__pycache__) directory names, packages with and without __init__.py, 'tests' / 'ftests' / other names, .py / "
@@ -239,7 +239,7 @@ def run(ctx, n=None, module_gate_only=False):
     first = ctx.driver.batch(queries)
     for q, ans, info in zip(queries, first, infos):
         acc = info[8]
-        mods = [m for m in ans.get("modules", []) if m is not None]
+        mods = [m for cs in ans.get("candidates", []) for m in cs]
         q["acceptedModules"] = [m for m in mods if acc(".".join("".join(chr(c) for c in comp) for comp in m))]
     answers = ctx.driver.batch(queries)
     for (tree, roots, args, real_files, imported, d, base_path, options, acc, usec, failed_imports), ans in zip(infos, answers):
